@@ -277,6 +277,15 @@ func (*c06) Corpus() []any {
 		out = append(out, c06Case{Backend: b, Shape: "empty", Op: w,
 			Wide: &c06Wide{CRDs: true, Notes: true, Subchart: true, PostRender: true, CreateNamespace: true}})
 	}
+	// crds/ directory x every dry-run spelling x SkipCRDs on/off x ClientOnly on/off (seeded defect
+	// C06-1: CRDs installed when the dry run is spelled dry-run=server)
+	for _, s := range c06DrySpellings {
+		for m := 0; m < 4; m++ {
+			op := c06Mk("install", 7, eng.Flags{DryRun: s.B, DryRunOption: s.Opt, ClientOnly: m&2 != 0}, "a", "c")
+			op.Hooks = c06AllEventHooks()
+			out = append(out, c06Case{Backend: "secret", Shape: "empty", Op: op, Wide: &c06Wide{CRDs: true, SkipCRDs: m&1 != 0}})
+		}
+	}
 	// `helm template` through pkg/cmd, with and without --validate, on a populated history
 	for _, v := range []bool{false, true} {
 		tp := c06Mk("install", 7, eng.Flags{DryRun: true}, "a", "c")
